@@ -73,10 +73,11 @@ func HistCheckFor(prop string) (HistCheck, bool) {
 		g.WClean, g.WSave, g.WReload = 5, 2, 3
 		g.MinOps, g.MaxOps = 6, 30
 		g.MerkleBlocks = true
+		g.WMark, g.WUnmark = 3, 1
 		g.PruneDepths = []int{0, 0, 8, 12}
 		g.BaseLens = []int{0, 2, 8, 20}
 		hc.Post = c18Post
-		hc.Rule = "for the blocks (1-70 txids, real merkle roots) of each generated history: valid proofs by a reference merkle implementation given with header / hash only / both, explicit and DuplicatedIndexes encodings, on best, side and pruned blocks; then every single-element corruption of each valid proof. distinct = (ntx,index,location,encoding)"
+		hc.Rule = "for the blocks (1-70 txids, real merkle roots) of each generated history: valid proofs by a reference merkle implementation given with header / hash only / both, explicit and DuplicatedIndexes encodings, on best, side and pruned blocks, and (must not be reported on the best chain) on blocks excluded by invalid-marking; then every single-element corruption of each valid proof. distinct = (ntx,index,location,encoding)"
 	default:
 		return hc, false
 	}
@@ -133,7 +134,7 @@ func RunHist(prop, tier string, seed int64) int {
 	}
 	if prop == "C18" {
 		run.Extra("proofs", map[string]int64{"valid_proofs_verified": c18Obs.valid, "corrupted_proofs_tried": c18Obs.corrupt,
-			"blocks_on_best_chain": c18Obs.bestBlocks, "blocks_on_side_branches": c18Obs.sideBlocks, "blocks_in_pruned_history": c18Obs.prunedBlocks})
+			"blocks_on_best_chain": c18Obs.bestBlocks, "blocks_on_side_branches": c18Obs.sideBlocks, "blocks_in_pruned_history": c18Obs.prunedBlocks, "blocks_excluded_by_invalid_marking": c18Obs.removedBlocks})
 	}
 	return run.Finish()
 }
